@@ -11,6 +11,7 @@ mod fam_rules;
 mod fam_direct;
 mod fam_obs;
 mod fam_round2;
+mod fam_round3;
 
 pub type O = Out<BufWriter<File>>;
 
@@ -59,37 +60,49 @@ fn main() {
         // the property's own predicate and projection)
         "c01" => {
             fam_signed::c01(&mut o, tier, &mut rng);
+            fam_round3::large_counts(&mut o, 1, tier, &mut rng, fam_round3::LC_ALL);
             fam_round2::broad(&mut o, 1, tier, &mut rng);
         }
         "c02" => {
             fam_signed::c02(&mut o, tier, &mut rng, 2);
             fam_round2::extra_date(&mut o, 2, tier, &mut rng);
+            fam_round3::methods_folding(&mut o, 2, tier, &mut rng);
         }
         "c15" => {
             fam_signed::c02(&mut o, tier, &mut rng, 15);
             fam_round2::oversize_fold(&mut o, 15, tier, &mut rng);
             fam_round2::fold_nothing_contributed(&mut o, 15, tier, &mut rng);
+            fam_round3::request_targets(&mut o, 15, tier, &mut rng);
+            fam_round3::methods_folding(&mut o, 15, tier, &mut rng);
         }
         "c03" => {
             fam_rules::c03(&mut o, tier, &mut rng);
             fam_round2::iso_week_scope(&mut o, 3, tier, &mut rng);
             fam_round2::double_encoded_credentials(&mut o, 3, tier, &mut rng);
+            fam_round3::day_end_fractions(&mut o, 3, tier, &mut rng);
+            fam_round3::large_counts(&mut o, 3, tier, &mut rng, fam_round3::LC_CREDENTIAL_PARTS);
             fam_round2::broad(&mut o, 3, tier, &mut rng);
         }
         "c04" => {
             fam_rules::c04(&mut o, tier, &mut rng);
             fam_round2::far_instants(&mut o, 4, tier, &mut rng);
             fam_round2::extra_date(&mut o, 4, tier, &mut rng);
+            fam_round3::day_end_fractions(&mut o, 4, tier, &mut rng);
+            fam_round3::ecosystem_parameters(&mut o, 4, tier, &mut rng);
             fam_round2::broad(&mut o, 4, tier, &mut rng);
         }
         "c05" => {
             fam_rules::c05(&mut o, tier, &mut rng);
             fam_round2::upper_signed_entries(&mut o, tier, &mut rng);
+            fam_round3::declared_builtin_names(&mut o, tier, &mut rng);
+            fam_round3::request_targets(&mut o, 5, tier, &mut rng);
             fam_round2::broad(&mut o, 5, tier, &mut rng);
         }
         "c11" => {
             fam_rules::c11(&mut o, tier, &mut rng);
             fam_round2::fold_signed_proxy_headers(&mut o, tier, &mut rng);
+            fam_round3::host_values(&mut o, 11, tier, &mut rng);
+            fam_round3::large_counts_upto(&mut o, 11, tier, &mut rng, fam_round3::LC_HEADERS | fam_round3::LC_HEADER_VALUES, 256);
             fam_round2::broad(&mut o, 11, tier, &mut rng);
         }
         "c12" => {
@@ -100,6 +113,9 @@ fn main() {
             if tier != "quick" {
                 fam_round2::oversize_fold(&mut o, 12, tier, &mut rng);
             }
+            fam_round3::bom_bodies(&mut o, 12, tier, &mut rng);
+            fam_round3::methods_folding(&mut o, 12, tier, &mut rng);
+            fam_round3::content_type_quoting(&mut o, 12, tier, &mut rng);
             fam_round2::broad(&mut o, 12, tier, &mut rng);
         }
         "c13" => {
@@ -108,11 +124,14 @@ fn main() {
             fam_round2::confusables(&mut o, 13, tier, &mut rng);
             fam_round2::double_encoded_credentials(&mut o, 13, tier, &mut rng);
             fam_round2::double_encoded_parameters(&mut o, 13, tier, &mut rng);
+            fam_round2::io_errors_and_recovery(&mut o, 13, tier, &mut rng);
+            fam_round3::degenerate_fields(&mut o, 13, tier, &mut rng);
+            fam_round3::tab_padded_values(&mut o, 13, tier, &mut rng);
             fam_round2::broad(&mut o, 13, tier, &mut rng);
         }
         "c14" => {
             fam_rules::c14(&mut o, tier, &mut rng);
-            fam_round2::io_errors_and_recovery(&mut o, tier, &mut rng);
+            fam_round2::io_errors_and_recovery(&mut o, 14, tier, &mut rng);
             fam_round2::broad(&mut o, 14, tier, &mut rng);
         }
         "c16e" => {
@@ -123,6 +142,10 @@ fn main() {
             fam_rules::c19(&mut o, tier, &mut rng);
             fam_round2::fold_query_carrier_dups(&mut o, 19, tier, &mut rng);
             fam_round2::extra_date(&mut o, 19, tier, &mut rng);
+            fam_round3::cross_carrier(&mut o, 19, tier, &mut rng);
+            fam_round3::empty_auth_elements(&mut o, 19, tier, &mut rng);
+            fam_round3::tab_padded_values(&mut o, 19, tier, &mut rng);
+            fam_round3::large_counts(&mut o, 19, tier, &mut rng, fam_round3::LC_AUTH_PARAMETERS);
             fam_round2::broad(&mut o, 19, tier, &mut rng);
         }
         "c08" => {
@@ -130,6 +153,8 @@ fn main() {
             fam_round2::confusables(&mut o, 8, tier, &mut rng);
             fam_round2::double_encoded_credentials(&mut o, 8, tier, &mut rng);
             fam_round2::double_encoded_parameters(&mut o, 8, tier, &mut rng);
+            fam_round3::content_type_quoting(&mut o, 8, tier, &mut rng);
+            fam_round3::degenerate_fields(&mut o, 8, tier, &mut rng);
         }
         "c10" => {
             fam_direct::c10(&mut o, tier, &mut rng);
@@ -144,6 +169,12 @@ fn main() {
         "c17" => fam_obs::c17(&mut o, tier, &mut rng),
         "c18" => fam_obs::c18(&mut o, tier, &mut rng, &args[4]),
         "c18child" => fam_obs::c18child(&mut o, tier.parse().unwrap_or(1), &args[5]),
+        // development aid: one round-3 class on its own, `r3.<class>.<property number>`
+        f if f.starts_with("r3.") => {
+            let ps: Vec<&str> = f.split('.').collect();
+            let prop: u8 = ps.get(2).and_then(|s| s.parse().ok()).unwrap_or(1);
+            fam_round3::dev(&mut o, ps[1], prop, tier, &mut rng);
+        }
         "replay" => {
             let line = args[5..].join(" ");
             replay_one(&mut o, &line);
